@@ -1,8 +1,9 @@
 (* Extraction of the layout model.  ExtrOcamlBasic only; no Extract Constant. *)
 From Coq Require Import Extraction ExtrOcamlBasic.
 From Coq Require Import NArith ZArith List.
-From GV Require Import model.Layout.
+From GV Require Import model.Layout model.LayoutSrc.
 Extraction "extract/layout_model.ml"
   Layout.row_layout_of Layout.byte_offset Layout.agg_layout_of Layout.sort_layout_of Layout.appends
   Layout.sv_new Layout.sv_is_inline Layout.offset_from_hash Layout.inc_and_wrap Layout.validity_bytes
+  Layout.holds Layout.roundtrip Layout.push_view Layout.compute_heap_sizes Layout.heap_block_of LayoutSrc.src_str_preds
   BinInt.Z.of_N.  (* keeps the type z the shared prelude expects *)
